@@ -1637,8 +1637,10 @@ impl<'a> Runtime<'a> {
             return Value::Str(ArenaCow::Owned(result));
         }
 
-        if matches!(val, Value::Array(_)) {
-            // Arrays promoted to persistent via pool.
+        if matches!(val, Value::Array(_) | Value::Host(_)) {
+            // Arrays and host values (process commands and results) are promoted to
+            // persistent via pool: a handle cloned onto the callee's frame would dangle
+            // after the reset below.
             let promoted = val.promote(&self.pool, self.frame);
             #[cfg(naijascript_verif)]
             verif_counters::frame_reset();
